@@ -249,9 +249,15 @@ class t2data(object):
     """Class for TOUGH2 data."""
     def __init__(self, filename = '', meshfilename = '',
                  read_function = default_read_function):
-        from copy import deepcopy
         self.filename = filename
         self.meshfilename = meshfilename
+        self.empty()
+        self.read_function = read_function
+        if self.filename: self.read(filename, meshfilename)
+
+    def empty(self):
+        """Empties the contents of the data object."""
+        from copy import deepcopy
         self.title = ''
         self.simulator = ''
         self.parameter = deepcopy(default_parameters)
@@ -281,8 +287,6 @@ class t2data(object):
         self.end_keyword = 'ENDCY'
         self._extra_precision, self._echo_extra_precision = [], True
         self.update_read_write_functions()
-        self.read_function = read_function
-        if self.filename: self.read(filename, meshfilename)
 
     def get_extra_precision(self): return self._extra_precision
     def set_extra_precision(self, value):
@@ -1594,6 +1598,7 @@ class t2data(object):
         an associated '.pdat' file, if it exists.
         """
         if filename: self.filename = filename
+        self.empty()
         mode = 'r' if sys.version_info > (3,) else 'rU'
         infile = t2data_parser(self.filename, mode, read_function = self.read_function)
         self.read_title(infile)
